@@ -33,6 +33,9 @@ func (e *Env) fail(format string, a ...interface{}) {
 	panic(specErr{fmt.Sprintf("contract error in %s: %s", e.what, fmt.Sprintf(format, a...))})
 }
 
+// noCallRec: resultof/argof/atreturn named a call that did not happen on the current path
+type noCallRec struct{}
+
 var tyBool = types.Typ[types.Bool]
 var tyInt = types.Typ[types.Int]
 var tyString = types.Typ[types.String]
@@ -337,7 +340,28 @@ func (e *Env) evalValue(x ast.Expr) Val {
 		case token.LOR:
 			return boolVal(tOr(e.evalBool(x.X), e.evalBool(x.Y)))
 		}
-		a, b := e.eval(x.X), e.eval(x.Y)
+		var a, b Val
+		if missing := func() (m bool) {
+			// a comparison that mentions resultof/argof/atreturn of a call that did not happen on this
+			// path says nothing about this path (such clauses are about the call when it happens)
+			defer func() {
+				if r := recover(); r != nil {
+					if _, ok := r.(noCallRec); ok {
+						m = true
+						return
+					}
+					panic(r)
+				}
+			}()
+			a, b = e.eval(x.X), e.eval(x.Y)
+			return false
+		}(); missing {
+			switch x.Op {
+			case token.EQL, token.NEQ, token.LSS, token.LEQ, token.GTR, token.GEQ:
+				return boolVal("true")
+			}
+			panic(noCallRec{})
+		}
 		if isNilVal(a) && !isNilVal(b) {
 			a = zeroVal(b.T)
 		} else if isNilVal(b) && !isNilVal(a) {
@@ -488,6 +512,48 @@ func (e *Env) evalCall(c *ast.CallExpr) Val {
 			e.fail("old() used where no pre-state exists")
 		}
 		return e.withCur(e.old).eval(arg(0))
+	case "resultof", "atreturn", "argof":
+		// resultof("callee"[, i]): the (i-th) result of the latest call of callee on this path;
+		// atreturn("callee", e): e evaluated in the state that call left behind
+		lit, ok := arg(0).(*ast.BasicLit)
+		if !ok || lit.Kind != token.STRING {
+			e.fail("%s: first argument must be a string literal naming the callee", name)
+		}
+		label, _ := strconv.Unquote(lit.Value)
+		rec := e.st.lastCall[label]
+		if rec == nil {
+			panic(noCallRec{})
+		}
+		if name == "atreturn" {
+			return e.withCur(rec.snap).eval(arg(1))
+		}
+		if name == "argof" {
+			// argof("callee", i): the i-th argument (receiver first) of the latest call
+			i := 0
+			if il, ok := arg(1).(*ast.BasicLit); ok {
+				i, _ = strconv.Atoi(il.Value)
+			}
+			if i >= len(rec.args) {
+				e.fail("argof(%q, %d): the call has %d arguments", label, i, len(rec.args))
+			}
+			return rec.args[i]
+		}
+		tp, isTuple := rec.res.T.(*types.Tuple)
+		if !isTuple {
+			return rec.res
+		}
+		i := 0
+		if len(c.Args) > 1 {
+			if il, ok := arg(1).(*ast.BasicLit); ok {
+				n, _ := strconv.Atoi(il.Value)
+				i = n
+			}
+		}
+		if i >= tp.Len() {
+			e.fail("resultof(%q, %d): the function has %d results", label, i, tp.Len())
+		}
+		lo, hi := tupleRange(tp, i)
+		return Val{T: tp.At(i).Type(), L: rec.res.L[lo:hi]}
 	case "atloop":
 		// atloop(e): e evaluated in the heap as it was when the loop was entered
 		if e.loopSnap == nil {
